@@ -12,8 +12,9 @@ DEF = (7, 10, 1500, 1, 25, 600000, 100)
 T32 = 2**32
 
 
-def op(flags, frag, a, b, ms, o=DEF):
-    return "\t".join(["uptime", str(flags), str(frag), str(a), str(b), str(ms)] + [str(x) for x in o])
+def op(flags, frag, a, b, ms, o=DEF, sub=0):
+    # sub: where inside the millisecond (ns) both clock readings fall - the elapsed milliseconds must not depend on it
+    return "\t".join(["uptime", str(flags), str(frag), str(a), str(b), str(ms)] + [str(x) for x in o] + ([str(sub)] if sub else []))
 
 
 def canon_model(ans):
@@ -56,6 +57,7 @@ def run(ctx):
                 if tk >= 0:
                     for a in (1, T32 - 3):
                         ops.append(op(0x12, 0, a, (a + tk) % T32, ms))
+                        ops.append(op(0x12, 0, a, (a + tk) % T32, ms, sub=r.choice([999_950, 999_999, 999_813])))
     ops = list(dict.fromkeys(ops))
     ctx.correspond(ops, nontrivial=nontriv, label="boundary", canon_model=canon_model)
     # other thresholds
@@ -74,7 +76,7 @@ def run(ctx):
             dl = max(0, int(hz * ms / 1000) + r.choice([-1, 0, 0, 1]))
         else:
             dl = r.randrange(T32)
-        ops.append(op(r.choice([0x10, 0x12, 0x02, 0x02, 0x18, 0x52]), 0, a, (a + dl) % T32, ms, o))
+        ops.append(op(r.choice([0x10, 0x12, 0x02, 0x02, 0x18, 0x52]), 0, a, (a + dl) % T32, ms, o, sub=r.choice([0, 0, 0, 999_950, 999_999, 500_000, 1])))
     ctx.correspond(ops, nontrivial=nontriv, label="random", canon_model=canon_model)
     # rounding function, exhaustive
     ops = ["roundfreq\t%d" % n for n in list(range(0, 3001)) + [10**4, 10**5, 10**6, 123456]]
